@@ -178,3 +178,33 @@ func verifGoNumberSyntax(s string) bool {
 	}
 	return false
 }
+
+var verifNumAlphabet = func() (t [256]bool) {
+	for _, c := range []byte("0123456789abcdefABCDEFxX.eE+-_ In") {
+		t[c] = true
+	}
+	return
+}()
+
+// ToNumber on longer strings: a fixed prefix, then 2..3 symbolic bytes over
+// the alphabet of numeric literals.
+func VerifH_C05_toNumber_templates() {
+	pre := []string{"", "+", "-", "0", "0x", "-0", "+0x", "1e", ".", " 1", "1."}[verifChoose(11)]
+	n := 1 + verifChoose(verifParam("holes", 2))
+	h := verifNondetString(n)
+	for i := 0; i < n; i++ {
+		verifAssume(verifNumAlphabet[h[i]])
+	}
+	s := pre + h
+	got := Value{kind: valueString, value: s}.float64()
+	ok, known, want := refStringNumericLiteral(s)
+	verifCover("reached")
+	if !ok {
+		verifAssert(got != got, "ES5 9.3.1: not a StringNumericLiteral => NaN")
+		return
+	}
+	verifAssert(got == got, "ES5 9.3.1: a StringNumericLiteral is not NaN")
+	if known {
+		verifAssert(sameF64(got, want) || (want == 0 && got == 0), "ES5 9.3.1: value of the literal")
+	}
+}
